@@ -1,0 +1,25 @@
+//go:build verif
+
+// Contracts for the deductive checks under /verif (comment-only; no code).
+
+package files
+
+// POSIX permission word: rwxrwxrwx in bits 0..8, sticky 01000, setgid 02000, setuid 04000.
+// Go: os.ModeSetuid = 1<<23, os.ModeSetgid = 1<<22, os.ModeSticky = 1<<20, permission bits 0..8.
+//
+//@ spec unixPermsOf(m os.FileMode) uint32 = uint32(m & 0x1FF) | ite(m & os.ModeSetuid != 0, 0x800, 0) | ite(m & os.ModeSetgid != 0, 0x400, 0) | ite(m & os.ModeSticky != 0, 0x200, 0)
+//@ spec modePermsOf(p uint32) os.FileMode = os.FileMode(p & 0x1FF) | ite(p & 0x800 != 0, os.ModeSetuid, 0) | ite(p & 0x400 != 0, os.ModeSetgid, 0) | ite(p & 0x200 != 0, os.ModeSticky, 0)
+
+//@ func ModePermsToUnixPerms
+//@   prop C18 C17
+//@   arith bv
+//@   ensures[posix] result == unixPermsOf(fileMode)
+//@   ensures[range] result & 0xFFFFF000 == 0
+
+//@ func UnixPermsToModePerms
+//@   prop C18
+//@   arith bv
+//@   ensures[posix] result == modePermsOf(unixPerms)
+
+//@ lemma[C18] perms_roundtrip (m os.FileMode): modePermsOf(unixPermsOf(m)) == m & (0x1FF | os.ModeSetuid | os.ModeSetgid | os.ModeSticky)
+//@ lemma[C18] unix_roundtrip (p uint32): unixPermsOf(modePermsOf(p)) == p & 0xFFF
